@@ -65,9 +65,16 @@ class Gen:
     # ---- parts --------------------------------------------------------------------------
     def header(self, version=None):
         r = self.r
+        import attr
+        fld = {f.name: f for f in attr.fields(self.H.FileHeader)}      # the live validator ranges, not copies of them
+
+        def rng(nm, lo, hi):
+            v = fld[nm].validator
+            return (int(getattr(v, "minimum", lo)), int(getattr(v, "maximum", hi)))
         return self.H.FileHeader(
             version=version or r.choice([1, 2]),
-            channels=self.edge(1, 57), height=self.edge(1, 300001), width=self.edge(1, 300001),
+            channels=self.edge(*rng("channels", 1, 56)), height=self.edge(*rng("height", 1, 300000)),
+            width=self.edge(*rng("width", 1, 300000)),
             depth=r.choice([1, 8, 16, 32]), color_mode=r.choice(list(self.C.ColorMode)))
 
     def resources(self, encoding, n=None, typed=True):
@@ -246,7 +253,7 @@ class Gen:
             return {"C01/none-vs-empty/lam-tagged-blocks-empty-without-layer-info"}
         if lam.layer_info is None:
             lam = doc.layer_and_mask_information = LM.LayerAndMaskInformation(
-                self.layer_info(version, encoding, n=1), self.glm(), self.TB.TaggedBlocks())
+                self.layer_info(version, encoding, n=1, typed=False), self.glm(), self.TB.TaggedBlocks())
         if force == "count0-empty-lists":
             lam.layer_info = LM.LayerInfo(0, LM.LayerRecords([]), LM.ChannelImageData([]))
             return {"C01/none-vs-empty/layer-info-count0-empty-lists"}
@@ -262,11 +269,13 @@ class Gen:
             lam.global_layer_mask_info = LM.GlobalLayerMaskInfo()
             lam.tagged_blocks = self.TB.TaggedBlocks()
             doc.image_data = self.image_data(small=True)
-            return {"C01/glm/gate-depends-on-bytes-after-section"}
+            # repaired (repo 60bbb32): the gate is `fp.tell() + 4 <= end_pos`; kept as a regression case that must be
+            # well formed and round-trip
+            return set()
         # blending ranges: need a record
         li = lam.layer_info
         if not li.layer_records:
-            lam.layer_info = li = self.layer_info(version, encoding, n=1)
+            lam.layer_info = li = self.layer_info(version, encoding, n=1, typed=False)
         rec = li.layer_records[0]
         if force == "ranges-composite-without-channels":
             rec.blending_ranges = LM.LayerBlendingRanges(self.range4(), None)
